@@ -104,9 +104,18 @@ const (
 	WrapUnlessEarly = 3
 )
 
-type WrapPlan struct{ Early, Before, After int }
+type WrapPlan struct {
+	Early, Before, After int
+	Inst                 int // 1: PostProcessBeforeInstantiation answers with a substitute (the component is never populated / initialised)
+}
 
-func (p WrapPlan) String() string { return fmt.Sprintf("e%db%da%d", p.Early, p.Before, p.After) }
+func (p WrapPlan) String() string {
+	s := fmt.Sprintf("e%db%da%d", p.Early, p.Before, p.After)
+	if p.Inst != 0 {
+		s += "i1"
+	}
+	return s
+}
 
 type WrapPP struct {
 	Plan    map[string]WrapPlan
@@ -172,6 +181,9 @@ func (w *WrapPP) PostProcessAfterInitialization(c any, name string) (any, error)
 }
 
 func (w *WrapPP) PostProcessBeforeInstantiation(m *component_definition.Meta, name string) (any, error) {
+	if w.Plan[name].Inst == WrapNew {
+		return w.mk(m.Raw, name, "beforeinst"), nil
+	}
 	return nil, nil
 }
 func (w *WrapPP) PostProcessAfterInstantiation(c any, name string) (bool, error) { return false, nil }
